@@ -19,6 +19,8 @@ INITIAL_MISS = {'C01-1': 'provider function _increment_parent_descriptor_version
                 'C05-3': 'C05 trusted the converter lemma proved under C18 without re-checking it',
                 'C07-3': 'only the branch of _update_corresponding_state with the state inside the transaction was under contract; the copy branch was not',
                 'C08-4': 'on_renew_request was only checked for unknown identifiers, not for the content / order of the answer',
+                'C13-3': 'no raw request carried a malformed Accept-Encoding header; the C17 enumeration crashed on the raising parser (undecided) instead of reporting it',
+                'C13-4': 'the consumer-side deferred dispatcher was not under contract',
                 'C15-3': 'reported as undecided (exit 2): the refutation was replayed only with draws inside the legal window, so the model looked spurious',
                 'C15-4': 'the send loop (_run_send) was declared out of reach and had no contract',
                 'C16-3': 'the foreign-scope enumeration had malformed strings only, no well-formed scope with unknown / duplicated / empty query keys',
